@@ -260,7 +260,7 @@ def run_case(case):
         o0 = np.real(runner.to_np(runner.get_at(captured[0], "occupation", 1.0))).astype(float)
         for k, c in enumerate(captured[1:], start=2):
             ok_ = np.real(runner.to_np(runner.get_at(c, "occupation", 1.0))).astype(float)
-            if np.abs(ok_ - o0).max() > 1e-9:
+            if not np.abs(ok_ - o0).max() <= 1e-9:  # NaN fails
                 return result(False, sig="trajectory-depends-on-earlier-ones|mps", msg=f"{label}: trajectory {k} got the same random answers as trajectory 1 but ends with occupation {np.round(ok_, 6).tolist()} instead of {np.round(o0, 6).tolist()}", outcome="carry")
     if len(captured) != n:
         return result(False, sig=f"count|{be}|{noise}", msg=f"{label}: {len(captured)} simulations ran for n_trajectories={n}", outcome="count")
@@ -277,7 +277,7 @@ def run_case(case):
             mean = np.mean(vals, axis=0)
             got = np.real(runner.to_np(runner.get_at(res, tag, t))).astype(float)
             differ = differ or any(np.abs(v - vals[0]).max() > 1e-9 for v in vals)
-            if np.abs(got - mean).max() > 1e-10 * max(1.0, np.abs(mean).max()):
+            if not np.abs(got - mean).max() <= 1e-10 * max(1.0, np.abs(mean).max()):  # NaN fails
                 return result(False, sig=f"mean|{be}|{tag}", msg=f"{label}: aggregated {tag} at t={t} is {np.round(got, 8).tolist()} but the mean of the {n} trajectories is {np.round(mean, 8).tolist()}", outcome="mean")
     if not shots:
         return result(True, outcome=["ok-nobits", n, rnd(np.real(runner.to_np(runner.get_at(res, "occupation", 1.0))), 4)], transitions=n, nontrivial=bool(differ))
